@@ -28,6 +28,10 @@ def run(ctx):
                 for inp in (proggen.LOOP_INPUTS if stream == 'loops' else proggen.INPUTS):
                     for st in (progsuite.STORES if ctx.tier == 'thorough' else [rnd.choice(progsuite.STORES)]):
                         meta[progsuite.prog_case(cases, st, src, inp, progsuite.HOSTS[1], ast)] = stream
+            elif stream == 'equality':
+                # input-independent: both stores, one input
+                for st in progsuite.STORES:
+                    meta[progsuite.prog_case(cases, st, src, '-', progsuite.HOSTS[1], ast)] = stream
             else:
                 for st in progsuite.STORES:
                     for inp in rnd.sample(proggen.INPUTS, 2 if ctx.tier == 'quick' else len(proggen.INPUTS)):
@@ -51,13 +55,14 @@ def run(ctx):
         for root in proggen.enumerate_small(1 if ctx.tier == 'quick' else 2, compilegen.SMALL_OPS):
             root = compilegen.fix_property(root)
             cprogs.append((proggen.pp(root), compilegen.program_term(root)))
-        seen, comp, dump = set(), [], []
+        seen, comp, dump, comp_src = set(), [], [], []
         for src, ast in cprogs:
             if (src, ast) in seen:
                 continue
             seen.add((src, ast))
             k = str(len(comp))
             comp.append(['COMPILE', 'k' + k, ast])
+            comp_src.append(src)
             for st in progsuite.STORES:
                 dump.append(['DUMP', f'k{k}:{st}', st, vlib.esc(src)])
         di = vlib.run_impl(dump, 'c01dump', per_case_s=5.0)
@@ -78,6 +83,24 @@ def run(ctx):
         stats['programs satisfying WFProgram (hypothesis of C01_compile_correct)'] = nwf
         ctx.evaluations += len(dump)
         ctx.oblige('suite COMPILE (real build = Abs.compile on every generated program, both stores)', 'suite', ndiff == 0, f'{ndiff} difference(s)')
+        # the elaboration Abs.Source.elabSrc (Lemmas/SourceRep.lean: lexer model -> reference parser -> elaboration, the function the
+        # source-level theorem C01_source_* speaks about) against the generator's AST: wherever it is defined it must be that AST
+        el = vlib.run_model([['ELAB', c[1], vlib.esc(src), c[2]] for c, src in zip(comp, comp_src)], 'c01elab')
+        import collections
+        edist, ndiffer = collections.Counter(), 0
+        for c in comp:
+            r = el.get(c[1]) or 'missing'
+            key = ' '.join(r.split(' ')[:2]) if r.startswith('none') else r.split(' ')[0]
+            if key.startswith('none') and 'seafter' not in c[2] and 'sebefore' not in c[2]:
+                key += ' (no side-effect block in the program)'
+            edist[key] += 1
+            if key not in ('same',) and not key.startswith('none'):
+                ndiffer += 1
+                ctx.fail('corr', ['ELAB', c[1], c[2]], impl=c[2][:500], model=r[:500], expect='same',
+                         note='the elaboration of the reference tree of the printed source is not the generator\'s AST')
+        stats['ELAB (elaboration of the parsed source = AST)'] = dict(edist)
+        ctx.oblige('suite ELAB (elabSrc (refParse (lex source)) = the AST wherever defined; undefined only with side-effect blocks)', 'suite',
+                   ndiffer == 0 and not any('no side-effect' in k for k in edist), str(dict(edist)))
     for c in cases:
         ctx.distinct.add((c[3], c[4]))
     ctx.oblige('reference evaluator available for every case (driver built, AST readable)', 'suite', drv_ok and not any(k.startswith('spec-BAD') for k in stats), str(stats))
